@@ -94,7 +94,13 @@ class Sender:
     async def close(self):
         if self._sender_task is not None and not self._sender_task.done():
             self._sender_task.cancel()
-            await self._sender_task
+            try:
+                await self._sender_task
+            except Exception:
+                # One of the requests still in flight failed with a fatal
+                # error. `_fail_all` passes it to the pending batches and the
+                # transaction; closing has to go on.
+                log.debug("Sender failed while closing", exc_info=True)
 
     async def _sender_routine(self):
         """Background task, that sends pending batches to leader nodes for
